@@ -271,3 +271,20 @@ pub mod layout_rules {
         crate::layout_rules::verif_lookup(rules, queries).map_err(|_| ())
     }
 }
+
+pub mod x86_64 {
+    /// See `crate::elf_x86_64::verif_new_relaxation`. Returns (relaxation kind, relocation info, mandatory,
+    /// patched bytes, new offset, new addend, skip next relocation).
+    #[allow(clippy::type_complexity)]
+    pub fn new_relaxation(
+        r_type: u32,
+        bytes: &[u8],
+        offset: u64,
+        flag_bits: u16,
+        output_kind: u8,
+        exec: bool,
+        addend: i64,
+    ) -> Option<(String, String, bool, Vec<u8>, u64, i64, bool)> {
+        crate::elf_x86_64::verif_new_relaxation(r_type, bytes, offset, flag_bits, output_kind, exec, addend)
+    }
+}
